@@ -14,6 +14,10 @@ def clean(wt):
     sh("git checkout -q -- . && rm -f seeded_demo_test.go", wt)
 
 def do_import(pid):
+    # "DIR:NAME:PROP" imports /tmp/mut/DIR/_out/m* as seeded/NAME_m* for property PROP
+    name, prop = pid, pid
+    if ":" in pid:
+        pid, name, prop = pid.split(":")
     wt = "/tmp/mut/" + pid
     outd = os.path.join(wt, "_out")
     if not os.path.isdir(outd):
@@ -41,7 +45,7 @@ def do_import(pid):
         print(pid, m, "confirmed" if ok else "REJECTED", ran)
         if not ok:
             continue
-        dst = os.path.join(V, "seeded", "%s_%s" % (pid, m))
+        dst = os.path.join(V, "seeded", "%s_%s" % (name, m))
         shutil.rmtree(dst, ignore_errors=True)
         os.makedirs(dst)
         shutil.copy(patch, dst); shutil.copy(demo, os.path.join(dst, "demo_test.go"))
@@ -50,7 +54,7 @@ def do_import(pid):
         if os.path.exists(notes):
             shutil.copy(notes, dst)
             needs = open(notes).read()[:1500]
-        json.dump(dict(property=pid, source="independent sub-agent given only the property text and a scratch worktree",
+        json.dump(dict(property=prop, source="independent sub-agent given only the property text and a scratch worktree",
                        base_commit=sh("git rev-parse HEAD", wt)[1].strip(),
                        needs_to_manifest=needs,
                        confirmed=[dict(cmd=c, exit=r) for c, r in ran],
